@@ -204,16 +204,23 @@ def _check_group(rep, grp, ctx, text, src, lib, results, timeout_ms):
             for n, t in c.ins:
                 v = model.eval(inputs[f"c{i}_{n}"], model_completion=True).as_long()
                 vals[n] = v
-            results[c.key] = _replay(rep, c, i, grp, ctx, lib, vals, text, src)
+            others = {}
+            for j, cj in enumerate(grp):
+                if j != i:
+                    for n, t in cj.ins:
+                        # inputs of the other cells of the group: any value admitted by their own assumptions (1 avoids
+                        # constant-zero divisors in the concrete run)
+                        others[f"c{j}_{n}"] = 1
+            results[c.key] = _replay(rep, c, i, grp, ctx, lib, vals, text, src, others)
 
 
-def _replay(rep, c, i, grp, ctx, lib, vals, text, src):
+def _replay(rep, c, i, grp, ctx, lib, vals, text, src, others=None):
     """concrete re-run (IntDom) of the same emitted text + python-int spec"""
     sim = VS.Sim(lib, uninit="zero")
     inputs = {}
     for j, cj in enumerate(grp):
         for n, t in cj.ins:
-            inputs[f"c{j}_{n}"] = vals[n] if j == i else 0
+            inputs[f"c{j}_{n}"] = vals[n] if j == i else (others or {}).get(f"c{j}_{n}", 0)
     try:
         _drive(sim, ctx, inputs)
     except (Illegal, Unsupported) as e:
@@ -239,3 +246,46 @@ def _replay(rep, c, i, grp, ctx, lib, vals, text, src):
 def _cell_lines(text, i):
     tag = f"c{i}_"
     return [ln.strip() for ln in text.splitlines() if tag in ln][:12]
+
+
+# ---------------------------------------------------------------- compile-time twins of cells
+def literal_src(t: Ty, bits: int):
+    """source text of a compile-time constant of type t with the given bit pattern"""
+    w = ty_width(t)
+    if t.kind in ("Bit", "bool"):
+        return f"Bit({bits & 1})"
+    if t.kind == "BV":
+        return f'BitVector[{w}]("{bits:0{w}b}")'
+    if t.kind == "U":
+        return f"Unsigned[{w}]({bits})"
+    return f"Signed[{w}]({PyP.wrap(bits, w, True)})"
+
+
+def constify(cell: Cell, samples: int, rng):
+    """compile-time twins of a cell: every input replaced by a literal, so the compiler evaluates the body itself
+    (Python-level implementation of the operation) and must emit the constant the spec gives.  All input patterns
+    when there are at most `samples`, otherwise corners + seeded ones.  Patterns violating `assume` are skipped."""
+    import itertools
+    widths = [ty_width(t) for _, t in cell.ins]
+    total = sum(widths)
+    if not cell.ins:
+        return []
+    if (1 << total) <= samples:
+        combos = list(itertools.product(*[range(1 << w) for w in widths]))
+    else:
+        combos = {tuple(0 for _ in widths), tuple((1 << w) - 1 for w in widths), tuple(1 << (w - 1) for w in widths), tuple(1 for _ in widths)}
+        while len(combos) < samples:
+            combos.add(tuple(rng.randrange(1 << w) for w in widths))
+        combos = sorted(combos)
+    out = []
+    for vals in combos:
+        math = [_math_in(PyP, v, t) for v, (_, t) in zip(vals, cell.ins)]
+        if cell.assume and not cell.assume(PyP, *math):
+            continue
+        body = cell.body
+        for (n, t), v in zip(cell.ins, vals):
+            body = body.replace("{" + n + "}", literal_src(t, v))
+        want = cell.spec(PyP, *math)
+        out.append(Cell(f"const|{cell.key}|{','.join(str(v) for v in vals)}", [], cell.out, body, (lambda P, want=want: (P.const(want) if not isinstance(want, bool) else want)),
+                        setup=cell.setup, local=cell.local, out_default=cell.out_default, nonlocals=cell.nonlocals, range_check=False))
+    return out
